@@ -449,6 +449,7 @@ Proof.
   intros [|init batches unsent f] Hwf Hk; [reflexivity|].
   cbn [wf_case] in Hwf.
   apply andb_true_iff in Hwf. destruct Hwf as [Hwf Hinv0].
+  apply andb_true_iff in Hwf. destruct Hwf as [Hwf Hrej].
   apply andb_true_iff in Hwf. destruct Hwf as [Hwf Hshape].
   apply andb_true_iff in Hwf. destruct Hwf as [Hwf Hcov].
   apply andb_true_iff in Hwf. destruct Hwf as [Hnd Hfresh].
@@ -468,11 +469,11 @@ Proof.
   assert (Hdr : data_eq dr d') by (apply data_eq_recompute).
   (* visibility *)
   rewrite <- Hreqs in Hnd, Hfresh, Hshape.
-  pose proof (vis_final sk (rr_items r) unsent d0 d' Hok Hdata
+  pose proof (vis_final sk (rr_items r) (map fst unsent) d0 d' Hok Hdata
                 (nodup_keys_NoDup _ Hnd)) as Hvis.
-  assert (Hfresh' : forall o, In o (flat_map req_ops (map it_req (rr_items r) ++ unsent)) -> reflected d0 o = false).
+  assert (Hfresh' : forall o, In o (flat_map req_ops (map it_req (rr_items r) ++ map fst unsent)) -> reflected d0 o = false).
   { intros o Ho. rewrite forallb_forall in Hfresh. specialize (Hfresh o Ho). apply negb_true_iff in Hfresh. exact Hfresh. }
-  assert (Hshape' : forall q, In q (map it_req (rr_items r) ++ unsent) -> req_shape q = true).
+  assert (Hshape' : forall q, In q (map it_req (rr_items r) ++ map fst unsent) -> req_shape q = true).
   { intros q Hq. rewrite forallb_forall in Hshape. apply Hshape. exact Hq. }
   specialize (Hvis Hfresh' Hshape'). destruct Hvis as [Hvis1 Hvis2].
   (* parse the vector *)
@@ -483,8 +484,8 @@ Proof.
   set (tail7 := [zb (rr_alive r); zn (if rr_alive r then rr_hits r else rr_last r); zb (loginv_b d'); zb (consistent_b dr); 1; 1]).
   rewrite <- !app_assoc.
   pose proof (triples_flat item (fun x => ack_code (it_ack x)) (fun x => live (it_req x)) (fun x => vis dr (it_req x)) (rr_items r)
-                (flat_map (fun q => [0; live q; vis dr q]) unsent ++ tail7 ++ [zb (wf_case (CRun init batches unsent f))])) as T1.
-  pose proof (triples_flat req (fun _ => 0) live (vis dr) unsent (tail7 ++ [zb (wf_case (CRun init batches unsent f))])) as T2.
+                (flat_map (fun x : req * bool => [if snd x then 2 else 0; live (fst x); vis dr (fst x)]) unsent ++ tail7 ++ [zb (wf_case (CRun init batches unsent f))])) as T1.
+  pose proof (triples_flat (req * bool) (fun x => if snd x then 2 else 0) (fun x => live (fst x)) (fun x => vis dr (fst x)) unsent (tail7 ++ [zb (wf_case (CRun init batches unsent f))])) as T2.
   unfold live in T1, T2. cbv beta in T1, T2. rewrite (triples_app _ _ _ _ _ _ _ T1 T2).
   unfold tail7. cbn [app].
   assert (Hl1 : loginv_b d' = true) by (apply loginv_b_complete; exact Hlog).
@@ -494,8 +495,9 @@ Proof.
   - rewrite Forall_forall in Hacks. destruct (Hacks x Hx) as [Ha1 [Ha2 Ha3]].
     rewrite (vis_data dr d' _ Hdr).
     apply (req_ok_item (it_ack x) (rr_alive r) (vis d' (it_req x)) (it_committed x) (quiet (it_req x))); auto.
-  - rewrite (vis_data dr d' _ Hdr). rewrite (Hvis2 x Hx).
-    destruct (quiet x); destruct (rr_alive r); reflexivity.
+  - rewrite (vis_data dr d' _ Hdr). rewrite (Hvis2 (fst x) (in_map fst _ _ Hx)).
+    rewrite forallb_forall in Hrej. specialize (Hrej x Hx). fold (quiet (fst x)) in Hrej.
+    destruct (snd x); destruct (quiet (fst x)); try discriminate; destruct (rr_alive r); reflexivity.
 Qed.
 
 (* ------------------------------------------------------------------ statements for props/C13.v *)
@@ -620,7 +622,7 @@ Definition nonvacuous_case : c13case :=
        [[mkReq KWrite [[Put 0 30900 1]] [] ANone];
         [mkReq KMutation [[Put 1 101 101; Put 2 102 102; Put 0 10102 1]] [1; 2]%N ANone;
          mkReq KDeletion [[Del 1 20000]] [1%N] ANone; mkReq KCompute [[]] [] ANone]]
-       [mkReq KNodes [[Put 1 105 105]; [Put 1 106 106]] [1%N] ANone] (FKill 17).
+       [(mkReq KNodes [[Put 1 105 105]; [Put 1 106 106]] [1%N] ANone, false)] (FKill 17).
 Lemma nonvacuous : wf_case nonvacuous_case = true /\ known_C13 nonvacuous_case = [] /\
   run_C13 nonvacuous_case = [1; -1; 1;  0; -1; 1;  0; -1; 1;  0; -1; 1;  0; -1; 0;  0; 6; 1; 1; 1; 1; 1].
 Proof. vm_compute. repeat split; reflexivity. Qed.
